@@ -91,6 +91,11 @@ def gen(rng, tier):
                 cutsets.append(jsongen.partitions(rng, n, rng.choice([3, 4])))
         for cuts in cutsets:
             out.append(mk(depth, fl, t, cuts, kind))
+        if cutsets and rng.random() < 0.35:
+            # zero-length calls (an empty read) before, between and after the pieces: a repeated cut position
+            base_cuts = list(rng.choice(cutsets))
+            extra = [rng.choice(base_cuts + [0, n]) for _ in range(rng.choice([1, 2]))]
+            out.append(mk(depth, fl, t, sorted(base_cuts + extra), kind + "-empty-chunk"))
         if cutsets and (b"." in t or b"e" in t or b"E" in t) and rng.random() < 0.5:
             # numbers with a fraction or exponent under a comma-decimal caller locale, cut inside / next to the number
             pos = [i for i in range(1, n) if t[i - 1:i] in b".eE0123456789+-" or t[i:i + 1] in b".eE0123456789+-"]
